@@ -83,6 +83,37 @@ def run(tier):
         if len(outs) > 1:
             sample = sorted(o[2].strip()[-300:] for o in outs)[:3]
             res.add_violation("cli-nondet-error-message:" + args[-1].split("=")[0].lstrip("-@"), "go-critic check %s: %d different outputs in 10 runs" % (" ".join(args), len(outs)), {"argv": args, "outputs": sample})
+    # user rule files whose rules overlap on the same nodes: which rule wins (message and fix) must not depend
+    # on anything but the order in which the files were given
+    with open(os.path.join(ws, "go.mod"), "a") as f:
+        f.write("\nrequire github.com/quasilyte/go-ruleguard/dsl v0.3.22\n")
+    os.makedirs(os.path.join(ws, "orules"), exist_ok=True)
+    rfiles = []
+    for k, (pat, msg) in enumerate([("fi()", "A: any call of fi"), ("$f()", "B: any call without arguments"), ("$x + 1", "C: plus one"), ("$x + $y", "D: any sum"),
+                                     ("len($s) == 0", "E: empty test"), ("$a == $b", "F: any comparison"), ("$x[:]", "G: full slice"), ("$x[$i]", "H: any index")]):
+        fn = os.path.join(ws, "orules", "r%d.go" % k)
+        open(fn, "w").write("package gorules\n\nimport \"github.com/quasilyte/go-ruleguard/dsl\"\n\nfunc overlap%d(m dsl.Matcher) {\n\tm.Match(`%s`).Report(`%s`)\n}\n" % (k, pat, msg))
+        rfiles.append(fn)
+    rg_args = ["-enable=ruleguard", "-@ruleguard.rules=" + ",".join(rfiles)]
+
+    def rgrun(p):
+        outs = []
+        for _ in range(12):
+            rc, so, se = vlib.sh([gc, "check"] + rg_args + [p], cwd=ws, timeout=300)
+            outs.append((rc, se))
+        return p, outs
+
+    for p, outs in vlib.parallel(rgrun, gpats[:6], workers=6):
+        res.count("cli_runs", len(outs))
+        res.count("overlapping_user_rule_runs", len(outs))
+        if len(outs[0][1].splitlines()) > 1:
+            res.put("overlap_workspaces_with_2plus_lines", p)
+        if "init error" in outs[0][1] or "ruleguard init" in outs[0][1]:
+            vlib.harness_fail("overlapping rule files do not load: " + outs[0][1][-600:])
+        if len(set(outs)) > 1:
+            k = next(i for i, o in enumerate(outs) if o != outs[0])
+            res.add_violation("cli-nondet:ruleguard-user-rules", "go-critic check %s %s: %d different outputs in %d runs" % (" ".join(a.split("=")[0] for a in rg_args), p, len(set(outs)), len(outs)),
+                              {"argv": rg_args, "pkg": p, "run0": outs[0][1][-2000:], "runN": outs[k][1][-2000:]})
     pairs = res.counts.get("file_checker_pairs", 0)
     nt = res.counts.get("pairs_with_2plus_diagnostics", 0)
     cov = {
